@@ -500,6 +500,29 @@ Example clone_request_example :
 Proof. vm_compute. repeat split. Qed.
 Print Assumptions clone_request_example.
 
+(* two caller classes that inherit ONE wrapper method (declared for component 'c') with different prefix maps
+   {'c': '/p'} and {'c': '/q'} over the same address: each call goes through the prefix of the caller it is made on,
+   whichever class used the method first (in general: wrapper_call_chain reads [m_map m] only, noninterference) *)
+Definition ex_two_classes : list op :=
+  [ OCaller [([99], [47;112])] (CDAddr ex_addr);          (* m0 = ClassP(addr), _HTTP_PREFIX_MAP = {'c': '/p'} *)
+    OCaller [([99], [47;113])] (CDAddr ex_addr);          (* m1 = ClassQ(addr), _HTTP_PREFIX_MAP = {'c': '/q'} *)
+    OCaller [([100], [47;113])] (CDAddr ex_addr) ].       (* m2: no component of the method *)
+Definition ex_q0 : reqspec := {| s_meth := MVerb 0; s_path := [47;97]; s_params := None; s_data := None; s_headers := None;
+                                 s_raw := false; s_resp := ex_resp |}.
+Definition url_of (st : state) (o : op) : option str :=
+  match snd (step st o) with Ok (OReq cap _) => Some (q_url cap) | _ => None end.
+Definition ex_call (m : nat) : op := OCall m (Some [[99]]) ex_q0.
+Example prefix_per_caller_example :
+  let st := fst (run_ops init ex_two_classes) in
+  let c := ex_call in
+  url_of st (c 0%nat) = Some (ex_addr ++ [47;112;47;97]) /\ url_of st (c 1%nat) = Some (ex_addr ++ [47;113;47;97]) /\
+  url_of (fst (step st (c 0%nat))) (c 1%nat) = Some (ex_addr ++ [47;113;47;97]) /\
+  url_of (fst (step st (c 1%nat))) (c 0%nat) = Some (ex_addr ++ [47;112;47;97]) /\
+  url_of (fst (run_ops st [c 0%nat; c 1%nat; c 2%nat])) (c 0%nat) = Some (ex_addr ++ [47;112;47;97]) /\
+  snd (step (fst (step st (c 0%nat))) (c 2%nat)) = Err AssertErr.
+Proof. vm_compute. repeat split. Qed.
+Print Assumptions prefix_per_caller_example.
+
 (* add_adapter is rightly outside the quantifier: it DOES change later requests through the connection *)
 Example add_adapter_interferes :
   exists ops i q, ~ no_add ops /\
